@@ -120,7 +120,88 @@ impl Monitor for C20 {
         } else {
             Vec::new()
         };
-        for (ixn, pre, post, io, code) in views {
+        // far-reference copies: every fourth executed swap on an adaptive-fee pool is run once more on a copy of its
+        // pre-state in which the adaptive-fee variables say "the last major move was just now and started far away"
+        // (reference tick group at the far end of the tick range, or just either side of the distance at which reference +
+        // distance x 10 000 passes 2^32; both timestamps = now, so the reference is not refreshed). Such a state is what one
+        // gigantic move inside a filter period leaves behind; the program and the SDK are compared on it like on any other.
+        struct Far {
+            pre: Ledger,
+            post: Option<Ledger>,
+            io: Option<crate::rt::IxOutcome>,
+            code: Option<u32>,
+            dist: i64,
+        }
+        let mut far: Vec<(usize, Far)> = Vec::new();
+        if ev.out.ok && ev.salt % 4 == 0 {
+            for (vi, (ixn, pre, _, _, _)) in views.iter().enumerate() {
+                let Some(c) = wpix::decode(ixn) else { continue };
+                if !matches!(c.name(), "swap" | "swap_v2") {
+                    continue;
+                }
+                let wk = c.a("whirlpool");
+                let ok_key = crate::ix::pda_oracle(&wk);
+                let (Some(pool), Some(o)) = (pre.data(&wk).and_then(decode::pool), pre.data(&ok_key).and_then(decode::oracle)) else { continue };
+                if o.c.tick_group_size == 0 {
+                    continue;
+                }
+                let g = o.c.tick_group_size as i32;
+                let idx = pool.tick_current_index.div_euclid(g) as i64;
+                let (lo, hi) = (decode::MIN_TICK.div_euclid(g) as i64, decode::MAX_TICK.div_euclid(g) as i64);
+                let (far_idx, sign) = if hi - idx >= idx - lo { (hi, 1i64) } else { (lo, -1i64) };
+                let wrap = ((1u64 << 32) - o.v.volatility_reference as u64).div_ceil(10_000) as i64;
+                let want = match (ev.salt / 4) % 3 {
+                    0 => (far_idx - idx).abs(),
+                    1 => wrap + ((ev.salt / 12) % 40) as i64,
+                    _ => wrap - 1 - ((ev.salt / 12) % 3) as i64,
+                };
+                let dist = want.min((far_idx - idx).abs()).max(0);
+                let reference = idx + sign * dist;
+                let mut f = (*pre).clone();
+                let Some(acct) = f.accts.get(&ok_key).cloned() else { continue };
+                let mut d = (*acct.data).clone();
+                d[82..90].copy_from_slice(&now.to_le_bytes());
+                d[90..98].copy_from_slice(&now.to_le_bytes());
+                d[102..106].copy_from_slice(&(reference as i32).to_le_bytes());
+                let acc = (o.v.volatility_reference as u64 + dist as u64 * 10_000).min(o.c.max_volatility_accumulator as u64) as u32;
+                d[106..110].copy_from_slice(&acc.to_le_bytes());
+                f.put(ok_key, crate::rt::Account { data: std::rc::Rc::new(d), ..acct });
+                let pre_f = f.clone();
+                let mut r = crate::rt::exec_tx_simple(&mut f, &crate::rt::Tx { ixs: vec![(*ixn).clone()] });
+                cov.probe("far_reference_copies");
+                if dist >= wrap {
+                    cov.probe("far_reference_copies_past_the_32_bit_distance");
+                }
+                if r.ok {
+                    cov.probe("far_reference_copies_executed");
+                    far.push((vi, Far { pre: pre_f, post: Some(f), io: r.ix_outcomes.pop(), code: None, dist }));
+                } else {
+                    let code = r.custom();
+                    far.push((vi, Far { pre: pre_f, post: None, io: None, code, dist }));
+                }
+            }
+        }
+        let n_real = views.len();
+        let mut views = views;
+        let mut far_dist: Vec<i64> = Vec::new();
+        for (vi, fr) in &far {
+            let ixn = views[*vi].0;
+            views.push((ixn, &fr.pre, fr.post.as_ref(), fr.io.as_ref(), fr.code));
+            far_dist.push(fr.dist);
+        }
+        let mut first_far_violation: Option<usize> = None;
+        'views: for (vno, (ixn, pre, post, io, code)) in views.into_iter().enumerate() {
+            if vno >= n_real {
+                if first_far_violation.is_none() {
+                    if !out.is_empty() {
+                        break;
+                    }
+                    first_far_violation = Some(0);
+                }
+                if !out.is_empty() {
+                    break;
+                }
+            }
             let Some(c) = wpix::decode(ixn) else { continue };
             let name = c.name();
             match name {
@@ -171,7 +252,7 @@ impl Monitor for C20 {
                         Err(Some(())) => Err("SDK panicked"),
                         Err(None) => {
                             out.push(viol("sdk_does_not_return", ev.idx, format!("{} ({} {} amount {} limit {}): the SDK's compute_swap has not returned after 20 seconds (the program {})", name, if a.a_to_b { "a_to_b" } else { "b_to_a" }, if a.is_input { "exact-in" } else { "exact-out" }, a.amount, a.limit, if post.is_some() { "executed the swap" } else { "refused it" })));
-                            return out;
+                            break 'views;
                         }
                     };
                     cov.eval(format!("{}|{}|{}|program_ok={}|sdk_ok={}|adaptive={}|complete={}|limit={}", name, if a.a_to_b { "a2b" } else { "b2a" }, if a.is_input { "in" } else { "out" }, post.is_some(), r.is_ok(), adaptive.is_some(), complete, a.limit != 0));
@@ -268,7 +349,7 @@ impl Monitor for C20 {
                                 cov.probe("quote_with_five_arrays_compared");
                                 if q3.is_some() && q3 != q5 {
                                     out.push(viol("sdk_quote_depends_on_the_array_packaging", ev.idx, format!("{} ({} {} amount {}): the quote over the three arrays the program was given is {:?}, over the SDK helper's five arrays (current, +1, +2, -1, -2) it is {:?}", name, if a.a_to_b { "a_to_b" } else { "b_to_a" }, if a.is_input { "exact-in" } else { "exact-out" }, a.amount, q3, q5)));
-                                    return out;
+                                    break 'views;
                                 }
                             }
                         }
@@ -579,6 +660,14 @@ impl Monitor for C20 {
                     }
                 }
                 _ => {}
+            }
+        }
+        if first_far_violation.is_some() {
+            // (real views stop producing before the first far view runs, and far views run only while nothing was reported)
+            let d = far_dist.first().copied().unwrap_or(0);
+            let _ = d;
+            for v in out.iter_mut() {
+                v.detail.push_str(" [on a copy of the pre-state whose adaptive-fee reference was placed far away, both timestamps = now]");
             }
         }
         out
